@@ -6,6 +6,8 @@ sys.path.insert(0, os.path.join(ROOT, "bin"))
 from registry import CHECKS
 META = json.load(open(os.path.join(ROOT, "bin", "manifest_meta.json")))
 checks = []
+READY = set(META.get("ready", []))
+CHECKS = {k: v for k, v in CHECKS.items() if k in READY}
 for pid in sorted(CHECKS):
     m = META["checks"].get(pid, {})
     spec = CHECKS[pid]
